@@ -5,6 +5,7 @@ package main
 
 import (
 	"sort"
+	"strings"
 
 	"golang.org/x/tools/go/ssa"
 )
@@ -322,6 +323,9 @@ func (f *flower) flowReturn(fn *ssa.Function, idx int, acc litSet, depth int) (b
 			f.dropped = append(f.dropped, "result of "+FuncName(fn)+" does not reach the reporter from call site "+f.P.Pos(c.Pos())+" in "+FuncName(c.Parent()))
 			continue
 		}
+		// literals about the returned value itself are made comparable across call sites:
+		// the descriptor of this call is replaced by a placeholder
+		g = f.P.rekey(g, map[ssa.Value]string{val: "$ret(" + FuncName(fn) + ")"})
 		if first {
 			result, first = g, false
 		} else {
@@ -391,4 +395,33 @@ func (P *Program) StaticClosure(fn *ssa.Function) []*ssa.Function {
 	}
 	walk(fn)
 	return out
+}
+
+// renameInKeys rewrites every literal key, replacing occurrences of old by new.
+func renameInKeys(s litSet, old, new string) litSet {
+	if old == "" || len(old) < 8 {
+		return s
+	}
+	r := litSet{}
+	for _, l := range s {
+		if strings.Contains(l.Key, old) {
+			l.Key = strings.ReplaceAll(l.Key, old, new)
+		}
+		r[l.String()] = l
+	}
+	return r
+}
+
+// rekey recomputes the keys of all literals under the given placeholder substitution.
+func (P *Program) rekey(s litSet, ov map[ssa.Value]string) litSet {
+	r := litSet{}
+	for _, l := range s {
+		if l.Val != nil || l.X != nil || len(l.Subs) > 0 {
+			if !strings.Contains(l.Key, "$ret(") { // already normalised literals keep their key
+				l.Key = P.LitKeyWith(l, ov)
+			}
+		}
+		r[l.String()] = l
+	}
+	return r
 }
